@@ -135,6 +135,162 @@ theorem decodeRound1_other_curve (c c' : Curve) (hc' : c'.WF) (m : Round1) (hm :
     simp only [Res.ok_bind, ne_eq]
     rw [if_pos hne]
 
+/-! ### inversion of the readers (for canonicity at the documented size) -/
+
+theorem readFull_ok (n : Nat) (r b r' : Bytes) (h : readFull n r = .ok (b, r')) : r = b ++ r' ∧ b.length = n := by
+  unfold readFull at h
+  split at h
+  · cases h
+  · rename_i hl
+    simp only [Res.ok.injEq, Prod.mk.injEq] at h
+    rw [← h.1, ← h.2]
+    exact ⟨(List.take_append_drop n r).symm, by simp only [List.length_take]; omega⟩
+
+theorem readUvarintGo_ok (r : Bytes) : ∀ (i x v : Nat) (r' : Bytes), readUvarintGo i x r = .ok (v, r') →
+    ∃ pre, r = pre ++ r' ∧ 1 ≤ pre.length ∧ (pre.length = 1 → i = 0 → x = 0 → pre = putUvarint v) := by
+  induction r with
+  | nil => intro i x v r' h; simp [readUvarintGo] at h
+  | cons b rest ih =>
+    intro i x v r' h
+    simp only [readUvarintGo] at h
+    split at h
+    · cases h
+    · split at h
+      · rename_i hb
+        split at h
+        · cases h
+        · simp only [Res.ok.injEq, Prod.mk.injEq] at h
+          refine ⟨[b], by rw [← h.2]; rfl, by simp, ?_⟩
+          intro _ hi hx
+          subst hi hx
+          rw [← h.1, putUvarint]
+          simp only [Nat.mul_zero, Nat.pow_zero, Nat.mul_one, Nat.zero_add]
+          rw [if_pos hb]
+          simp
+      · obtain ⟨pre, h1, h2, _⟩ := ih _ _ _ _ h
+        refine ⟨b :: pre, by rw [h1]; rfl, by simp, ?_⟩
+        intro hl
+        simp only [List.length_cons] at hl
+        omega
+
+theorem readChunk_ok (r d r' : Bytes) (h : readChunk r = .ok (d, r')) :
+    ∃ pre, r = pre ++ (d ++ r') ∧ 1 ≤ pre.length ∧ (pre.length = 1 → pre = putUvarint d.length) := by
+  unfold readChunk readUvarint at h
+  cases hu : readUvarintGo 0 0 r with
+  | ok a =>
+    obtain ⟨len, r1⟩ := a
+    rw [hu] at h
+    simp only [Res.ok_bind] at h
+    split at h
+    · cases h
+    · split at h
+      · cases h
+      · rename_i hlen
+        split at h
+        · cases h
+        · simp only [Res.pure_eq, Res.ok.injEq, Prod.mk.injEq] at h
+          obtain ⟨pre, h1, h2, h3⟩ := readUvarintGo_ok r 0 0 len r1 hu
+          have hdl : d.length = len := by rw [← h.1]; simp only [List.length_take]; omega
+          refine ⟨pre, ?_, h2, ?_⟩
+          · rw [h1, ← h.1, ← h.2, List.take_append_drop]
+          · intro hp; rw [hdl]; exact h3 hp rfl rfl
+  | error => rw [hu] at h; simp at h
+  | panic => rw [hu] at h; simp at h
+
+theorem readFixed_ok (n : Nat) (r : Bytes) (v : Nat) (r' : Bytes) (h : readFixed n r = .ok (v, r')) :
+    ∃ b, r = b ++ r' ∧ b.length = n ∧ v = beNat b := by
+  unfold readFixed at h
+  cases hf : readFull n r with
+  | ok a =>
+    obtain ⟨b, r1⟩ := a
+    rw [hf] at h
+    simp only [Res.ok_bind, Res.pure_eq, Res.ok.injEq, Prod.mk.injEq] at h
+    obtain ⟨h1, h2⟩ := readFull_ok n r b r1 hf
+    exact ⟨b, by rw [h1, h.2], h2, h.1.symm⟩
+  | error => rw [hf] at h; simp at h
+  | panic => rw [hf] at h; simp at h
+
+theorem readHeader_ok (magic r : Bytes) (sid : Nat) (r' : Bytes) (h : readHeader magic r = .ok (sid, r')) :
+    ∃ s, r = magic ++ (s ++ r') ∧ s.length = 8 ∧ sid = beNat s ∧ magic.length = 2 := by
+  unfold readHeader at h
+  cases hf : readFull 2 r with
+  | ok a =>
+    obtain ⟨m, r1⟩ := a
+    rw [hf] at h
+    simp only [Res.ok_bind] at h
+    split at h
+    · cases h
+    · rename_i hm
+      have hm : m = magic := Decidable.of_not_not hm
+      cases hf2 : readFull 8 r1 with
+      | ok a2 =>
+        obtain ⟨s, r2⟩ := a2
+        rw [hf2] at h
+        simp only [Res.ok_bind, Res.pure_eq, Res.ok.injEq, Prod.mk.injEq] at h
+        obtain ⟨h1, h2⟩ := readFull_ok 2 r m r1 hf
+        obtain ⟨h3, h4⟩ := readFull_ok 8 r1 s r2 hf2
+        refine ⟨s, ?_, h4, h.1.symm, by rw [← hm]; exact h2⟩
+        rw [h1, h3, hm, h.2]
+      | error => rw [hf2] at h; simp at h
+      | panic => rw [hf2] at h; simp at h
+  | error => rw [hf] at h; simp at h
+  | panic => rw [hf] at h; simp at h
+
+/-- At the documented size the round-1 format is canonical: bytes of that
+length that decode are exactly the encoding of what they decode to (the only
+accepted non-canonical inputs are longer: trailing bytes, padded length
+prefix). -/
+theorem encodeRound1_decode (c : Curve) (hc : c.WF) (data : Bytes) (m : Round1)
+    (h : decodeRound1 c data = .ok m) (hlen : data.length = 2 + 8 + 1 + c.name.length + 2 * c.byteLen) :
+    encodeRound1 c m = .ok data := by
+  unfold decodeRound1 at h
+  cases h1 : readHeader magicR1 data with
+  | ok a1 =>
+    obtain ⟨sid, r⟩ := a1
+    rw [h1] at h; simp only [Res.ok_bind] at h
+    cases h2 : readChunk r with
+    | ok a2 =>
+      obtain ⟨name, r1⟩ := a2
+      rw [h2] at h; simp only [Res.ok_bind] at h
+      split at h
+      · cases h
+      · rename_i hn
+        have hn : name = c.name := Decidable.of_not_not hn
+        cases h3 : readFixed c.byteLen r1 with
+        | ok a3 =>
+          obtain ⟨x, r2⟩ := a3
+          rw [h3] at h; simp only [Res.ok_bind] at h
+          cases h4 : readFixed c.byteLen r2 with
+          | ok a4 =>
+            obtain ⟨y, r3⟩ := a4
+            rw [h4] at h; simp only [Res.ok_bind, Res.pure_eq, Res.ok.injEq] at h
+            obtain ⟨s, e1, ls, es, lm⟩ := readHeader_ok _ _ _ _ h1
+            obtain ⟨pre, e2, lp, ep⟩ := readChunk_ok _ _ _ h2
+            obtain ⟨bx, e3, lx, ex⟩ := readFixed_ok _ _ _ _ h3
+            obtain ⟨by', e4, ly, ey⟩ := readFixed_ok _ _ _ _ h4
+            -- length accounting: one-byte prefix, nothing after the second coordinate
+            have htot : data.length = 2 + (8 + (pre.length + (name.length + (c.byteLen + (c.byteLen + r3.length))))) := by
+              rw [e1, e2, e3, e4]
+              simp only [List.length_append, lm, ls, lx, ly]
+            rw [hn] at htot
+            have hp1 : pre.length = 1 := by omega
+            have hr3 : r3 = [] := List.eq_nil_of_length_eq_zero (by omega)
+            rw [← h]
+            unfold encodeRound1
+            simp only
+            rw [if_neg (by simp [hn])]
+            rw [e1, e2, e3, e4, hr3, ep hp1, hn, es, ex, ey]
+            simp only [header, writeChunk, List.append_assoc, List.append_nil]
+            rw [beBytes_beNat 8 s ls, beBytes_beNat _ bx lx, beBytes_beNat _ by' ly]
+          | error => rw [h4] at h; simp at h
+          | panic => rw [h4] at h; simp at h
+        | error => rw [h3] at h; simp at h
+        | panic => rw [h3] at h; simp at h
+    | error => rw [h2] at h; simp at h
+    | panic => rw [h2] at h; simp at h
+  | error => rw [h1] at h; simp at h
+  | panic => rw [h1] at h; simp at h
+
 /-! ## Garbler session -/
 
 theorem encodeSenderSetup_eq (c : Curve) (s : GarblerSession) (h : s.curveName = c.name) :
